@@ -206,7 +206,7 @@ def rand_rune(rng, wide):
     if not wide or r < 0.75:
         return rng.choice([97, 98, 99, 100, 48, 49, 32, 10, 9, 45, 95, 65])
     if r < 0.85:
-        return rng.choice([0xE9, 0x3B1, 0x20AC, 0xFFFD, 0x7F, 0x80, 0x7FF, 0x800, 0xFFFF])
+        return rng.choice([0xE9, 0x3B1, 0x20AC, 0xFFFD, 0x7F, 0x80, 0x7FF, 0x800, 0xFFFF, 0xFEFF, 0x2028, 0x85])
     if r < 0.93:
         return rng.choice([0x10000, 0x1F600, 0x10FFFF])
     x = rng.randint(0, 0x10FFFF)
@@ -222,6 +222,11 @@ def rand_term(rng, depth, regdefs, wide, allow_dot):
         if k < 0.8:
             a = rand_rune(rng, wide)
             b = a + rng.choice([0, 1, 2, 3, 9, 25])
+            if wide and rng.random() < 0.3:
+                # a range that crosses a UTF-8 length boundary (0x80, 0x800, 0x10000): generated code that treats
+                # ASCII / multi-byte runes apart must still see one class
+                a = rng.choice([0x21, 0x61, 0x7F, 0x80, 0xC0, 0x7FF, 0x800, 0xE000, 0xFFFF])
+                b = rng.choice([x for x in [0xFF, 0x3B1, 0x7FF, 0x800, 0xD7FF, 0xFFFF, 0x10000, 0x10FFFF] if x > a])
             if 0xD800 <= a < 0xE000 or 0xD800 <= b < 0xE000 or b > 0x10FFFF:
                 a, b = 97, 99
             if rng.random() < 0.04 and a != b:
